@@ -39,6 +39,8 @@ pub enum RuntimeErrorKind {
     /// Type mismatch error that can't be caught in semantic analysis
     TypeMismatch,
     InvalidIndex,
+    /// A variable was used before the `make` that gives it a value has run
+    UndefinedVariable,
     ProcessUnsupported,
     ProcessDenied,
     ProcessSpawnFailed(&'static str),
@@ -57,6 +59,7 @@ impl AsStr for RuntimeErrorKind {
             RuntimeErrorKind::IndexOutOfBounds => "Index out of bounds",
             RuntimeErrorKind::TypeMismatch => "Type mismatch",
             RuntimeErrorKind::InvalidIndex => "Invalid index",
+            RuntimeErrorKind::UndefinedVariable => "Undefined variable",
             RuntimeErrorKind::ProcessUnsupported => "Unsupported process execution",
             RuntimeErrorKind::ProcessDenied => "Process execution denied",
             RuntimeErrorKind::ProcessSpawnFailed(..) => "Process spawn failed",
@@ -441,6 +444,10 @@ impl<'a> Runtime<'a> {
                         span: err.span,
                         message: ArenaCow::Borrowed("Index value no be whole number"),
                     }],
+                    RuntimeErrorKind::UndefinedVariable => vec![Label {
+                        span: err.span,
+                        message: ArenaCow::Borrowed("Dis variable never get value yet"),
+                    }],
                     RuntimeErrorKind::ProcessUnsupported => vec![Label {
                         span: err.span,
                         message: ArenaCow::Borrowed("Dis platform no support process execution"),
@@ -487,12 +494,12 @@ impl<'a> Runtime<'a> {
                 }
                 Ok(ExecFlow::Continue)
             }
-            Stmt::AssignExisting { var, expr, .. } => {
+            Stmt::AssignExisting { var, var_span, expr, .. } => {
                 let val = self.eval_expr(expr)?;
                 if let Some(local) = self.bound_stmt_local(stmt) {
-                    self.assign_bound_local(local, val);
+                    self.assign_bound_local(local, val, *var_span)?;
                 } else {
-                    self.assign_var(var, val);
+                    self.assign_var(var, val, *var_span)?;
                 }
                 Ok(ExecFlow::Continue)
             }
@@ -506,9 +513,10 @@ impl<'a> Runtime<'a> {
                 let is_truthy = match val {
                     Value::Bool(b) => b,
                     Value::Null => false, // null is falsy
-                    _ => unreachable!(
-                        "Semantic analysis guarantees only boolean expressions in conditions"
-                    ),
+                    // A dynamically typed condition can hold any value at run time
+                    _ => {
+                        return Err(RuntimeError::new(RuntimeErrorKind::TypeMismatch, cond.span()));
+                    }
                 };
                 #[cfg(feature = "verif-hooks")]
                 vtrace!("br", is_truthy, 0);
@@ -526,9 +534,12 @@ impl<'a> Runtime<'a> {
                     let should_continue = match val {
                         Value::Bool(b) => b,
                         Value::Null => false,
-                        _ => unreachable!(
-                            "Semantic analysis guarantees only boolean expressions in loop conditions"
-                        ),
+                        _ => {
+                            return Err(RuntimeError::new(
+                                RuntimeErrorKind::TypeMismatch,
+                                cond.span(),
+                            ));
+                        }
                     };
                     #[cfg(feature = "verif-hooks")]
                     vtrace!("lp", should_continue, 0);
@@ -662,17 +673,18 @@ impl<'a> Runtime<'a> {
             Expr::Number(n, ..) => Ok(Value::Number(
                 n.parse::<f64>().expect("Scanner should guarantee valid number format"),
             )),
-            Expr::String { parts, .. } => Ok(self.eval_string_expr(expr, parts)),
+            Expr::String { parts, span } => self.eval_string_expr(expr, parts, *span),
             Expr::Bool(b, ..) => Ok(Value::Bool(*b)),
             Expr::Null(..) => Ok(Value::Null),
-            Expr::Var(v, ..) => {
+            Expr::Var(v, span) => {
                 let frame = self.frame;
                 let val = if let Some(local) = self.bound_expr_local(expr) {
                     self.lookup_local(local, frame)
                 } else {
                     self.lookup_var(v, frame)
                 }
-                .expect("Semantic analysis should guarantee all variables are declared");
+                // A hoisted function can run before the `make` of a variable it captures
+                .ok_or_else(|| RuntimeError::new(RuntimeErrorKind::UndefinedVariable, *span))?;
                 Ok(val)
             }
             Expr::Binary { op, lhs, rhs, span } => match op {
@@ -689,7 +701,7 @@ impl<'a> Runtime<'a> {
                     match r {
                         Value::Bool(b) => Ok(Value::Bool(b)),
                         Value::Null => Ok(Value::Bool(false)),
-                        _ => unreachable!("Semantic analysis guarantees boolean expressions"),
+                        _ => Err(RuntimeError::new(RuntimeErrorKind::TypeMismatch, rhs.span())),
                     }
                 }
                 BinaryOp::Or => {
@@ -705,7 +717,7 @@ impl<'a> Runtime<'a> {
                     match r {
                         Value::Bool(b) => Ok(Value::Bool(b)),
                         Value::Null => Ok(Value::Bool(false)),
-                        _ => unreachable!("Semantic analysis guarantees boolean expressions"),
+                        _ => Err(RuntimeError::new(RuntimeErrorKind::TypeMismatch, rhs.span())),
                     }
                 }
                 _ => {
@@ -740,10 +752,15 @@ impl<'a> Runtime<'a> {
                             BinaryOp::Eq => Ok(Value::Bool(ls == rs)),
                             BinaryOp::Gt => Ok(Value::Bool(ls > rs)),
                             BinaryOp::Lt => Ok(Value::Bool(ls < rs)),
-                            _ => unreachable!("Semantic analysis guarantees valid string ops"),
+                            _ => Err(RuntimeError::new(RuntimeErrorKind::TypeMismatch, *span)),
                         },
                         (Value::Str(ls), Value::Number(n)) => {
-                            assert!(matches!(op, BinaryOp::Add));
+                            if !matches!(op, BinaryOp::Add) {
+                                return Err(RuntimeError::new(
+                                    RuntimeErrorKind::TypeMismatch,
+                                    *span,
+                                ));
+                            }
                             let mut writer = LenWriter(0);
                             write!(writer, "{n}").unwrap();
                             let mut s =
@@ -753,7 +770,12 @@ impl<'a> Runtime<'a> {
                             Ok(Value::Str(ArenaCow::Owned(s)))
                         }
                         (Value::Number(n), Value::Str(rs)) => {
-                            assert!(matches!(op, BinaryOp::Add));
+                            if !matches!(op, BinaryOp::Add) {
+                                return Err(RuntimeError::new(
+                                    RuntimeErrorKind::TypeMismatch,
+                                    *span,
+                                ));
+                            }
                             let mut writer = LenWriter(0);
                             write!(writer, "{n}").unwrap();
                             let mut s =
@@ -766,31 +788,30 @@ impl<'a> Runtime<'a> {
                             BinaryOp::Eq => Ok(Value::Bool(lv == rv)),
                             BinaryOp::Gt => Ok(Value::Bool(lv && !rv)), // false < true
                             BinaryOp::Lt => Ok(Value::Bool(!lv & rv)),
-                            _ => unreachable!("Semantic analysis guarantees valid bool ops"),
+                            _ => Err(RuntimeError::new(RuntimeErrorKind::TypeMismatch, *span)),
                         },
                         (Value::Null, Value::Null) => match op {
                             BinaryOp::Eq => Ok(Value::Bool(true)),
                             BinaryOp::Gt | BinaryOp::Lt => Ok(Value::Bool(false)),
-                            _ => unreachable!("Semantic analysis guarantees valid null ops"),
+                            _ => Err(RuntimeError::new(RuntimeErrorKind::TypeMismatch, *span)),
                         },
                         (Value::Null, ..) | (.., Value::Null) => match op {
                             BinaryOp::Eq | BinaryOp::Gt | BinaryOp::Lt => Ok(Value::Bool(false)),
-                            _ => unreachable!("Semantic analysis guarantees valid null ops"),
+                            _ => Err(RuntimeError::new(RuntimeErrorKind::TypeMismatch, *span)),
                         },
-                        _ => {
-                            unreachable!("Semantic analysis guarantees matching operand types")
-                        }
+                        // Operand types are only known at run time for dynamic values
+                        _ => Err(RuntimeError::new(RuntimeErrorKind::TypeMismatch, *span)),
                     }
                 }
             },
 
-            Expr::Unary { op, expr, .. } => {
+            Expr::Unary { op, expr, span } => {
                 let v = self.eval_expr(expr)?;
                 match (op, v) {
                     (UnaryOp::Not, Value::Bool(b)) => Ok(Value::Bool(!b)),
                     (UnaryOp::Not, Value::Null) => Ok(Value::Bool(true)),
                     (UnaryOp::Minus, Value::Number(n)) => Ok(Value::Number(-n)),
-                    _ => unreachable!("Semantic analysis guarantees valid unary expressions"),
+                    _ => Err(RuntimeError::new(RuntimeErrorKind::TypeMismatch, *span)),
                 }
             }
             Expr::Array { elements, .. } => {
@@ -801,11 +822,11 @@ impl<'a> Runtime<'a> {
                 }
                 Ok(Value::Array(values))
             }
-            Expr::Index { array, index, index_span, .. } => {
+            Expr::Index { array, index, index_span, span } => {
                 let array_value = self.eval_expr(array)?;
                 let index_value = self.eval_expr(index)?;
                 let Value::Array(mut items) = array_value else {
-                    unreachable!("Semantic analysis guarantees only arrays can be indexed")
+                    return Err(RuntimeError::new(RuntimeErrorKind::InvalidIndex, *span));
                 };
 
                 let Value::Number(index_number) = index_value else {
@@ -829,8 +850,9 @@ impl<'a> Runtime<'a> {
                 let slot = mem::replace(slot, Value::Null);
                 Ok(slot)
             }
-            Expr::Member { .. } => {
-                unreachable!("Semantic analysis guarantees member access is always a function call")
+            // A method name is not a value: `x.len` without a call
+            Expr::Member { span, .. } => {
+                Err(RuntimeError::new(RuntimeErrorKind::TypeMismatch, *span))
             }
             Expr::Call { .. } => self.eval_function_call(expr),
         }
@@ -848,7 +870,7 @@ impl<'a> Runtime<'a> {
 
         let func_name = match callee {
             Expr::Var(name, ..) => *name,
-            _ => unreachable!("Semantic analysis guarantees callee is variable or member"),
+            _ => return Err(RuntimeError::new(RuntimeErrorKind::TypeMismatch, *span)),
         };
 
         if let Some(builtin) = GlobalBuiltin::from_name(func_name) {
@@ -919,6 +941,19 @@ impl<'a> Runtime<'a> {
         Ok(val)
     }
 
+    /// The `index`-th argument of a method call. The resolver only checks the argument
+    /// count when it knows the receiver's type, so a call on a dynamic receiver can be short.
+    fn arg_at(
+        args: &'a ArgList<'a>,
+        index: usize,
+        span: Span,
+    ) -> Result<ExprRef<'a>, RuntimeError> {
+        args.args
+            .get(index)
+            .copied()
+            .ok_or_else(|| RuntimeError::new(RuntimeErrorKind::TypeMismatch, span))
+    }
+
     fn eval_builtin_call(
         &mut self,
         builtin: GlobalBuiltin,
@@ -962,7 +997,7 @@ impl<'a> Runtime<'a> {
             }
             GlobalBuiltin::Command => {
                 let Value::Str(program) = &arg_values[0] else {
-                    unreachable!("Semantic analysis guarantees string arg")
+                    return Err(RuntimeError::new(RuntimeErrorKind::TypeMismatch, span));
                 };
                 Ok(Value::Host(HostHandle::new_in(
                     self.frame,
@@ -995,7 +1030,7 @@ impl<'a> Runtime<'a> {
         let receiver = self.eval_expr(object)?;
         match receiver {
             Value::Str(ref s) => match StringBuiltin::from_name(field) {
-                Some(..) => self.eval_string_member_call(s, field, args),
+                Some(..) => self.eval_string_member_call(s, field, args, span),
                 None => Err(RuntimeError::new_with_extras(
                     RuntimeErrorKind::TypeMismatch,
                     span,
@@ -1013,7 +1048,7 @@ impl<'a> Runtime<'a> {
                 )),
             },
             Value::Array(ref arr) => match ArrayBuiltin::from_name(field) {
-                Some(..) => self.eval_array_member_call(arr, field, args),
+                Some(..) => self.eval_array_member_call(arr, field, args, span),
                 None => Err(RuntimeError::new_with_extras(
                     RuntimeErrorKind::TypeMismatch,
                     span,
@@ -1046,7 +1081,12 @@ impl<'a> Runtime<'a> {
                     )),
                 },
             },
-            Value::Bool(..) => unimplemented!("Boolean methods not implemented yet"),
+            Value::Bool(..) => Err(RuntimeError::new_with_extras(
+                RuntimeErrorKind::TypeMismatch,
+                span,
+                field,
+                GlobalBuiltin::type_of(&receiver),
+            )),
             Value::Null => Err(RuntimeError::new_with_extras(
                 RuntimeErrorKind::TypeMismatch,
                 span,
@@ -1066,7 +1106,7 @@ impl<'a> Runtime<'a> {
     ) -> Result<Value<'a>, RuntimeError> {
         match builtin {
             ArrayBuiltin::Push => {
-                let value = self.eval_expr(args.args[0])?;
+                let value = self.eval_expr(Self::arg_at(args, 0, span)?)?;
                 // Promote before pushing, the target array lives on persistent,
                 // but the value may reference frame-arena memory.
                 let value = if self.has_frame_arena() {
@@ -1103,28 +1143,28 @@ impl<'a> Runtime<'a> {
     ) -> Result<Value<'a>, RuntimeError> {
         match builtin {
             ProcessCommandBuiltin::Arg => {
-                let value = self.eval_expr(args.args[0])?;
+                let value = self.eval_expr(Self::arg_at(args, 0, span)?)?;
                 let arg = GlobalBuiltin::to_string(self.arena, &value);
                 let command = self.get_mutable_process_command(receiver, span, field)?;
                 command.push_arg(arg);
                 Ok(Value::Null)
             }
             ProcessCommandBuiltin::Cwd => {
-                let path = self.eval_required_string(args.args[0], span)?;
+                let path = self.eval_required_string(Self::arg_at(args, 0, span)?, span)?;
                 let command = self.get_mutable_process_command(receiver, span, field)?;
                 command.set_cwd(path);
                 Ok(Value::Null)
             }
             ProcessCommandBuiltin::Env => {
-                let key = self.eval_required_string(args.args[0], span)?;
-                let value = self.eval_expr(args.args[1])?;
+                let key = self.eval_required_string(Self::arg_at(args, 0, span)?, span)?;
+                let value = self.eval_expr(Self::arg_at(args, 1, span)?)?;
                 let value = GlobalBuiltin::to_string(self.arena, &value);
                 let command = self.get_mutable_process_command(receiver, span, field)?;
                 command.set_env(key, value);
                 Ok(Value::Null)
             }
             ProcessCommandBuiltin::StdinText => {
-                let value = self.eval_expr(args.args[0])?;
+                let value = self.eval_expr(Self::arg_at(args, 0, span)?)?;
                 let text = GlobalBuiltin::to_string(self.arena, &value);
                 let command = self.get_mutable_process_command(receiver, span, field)?;
                 command.set_stdin_text(text);
@@ -1171,7 +1211,7 @@ impl<'a> Runtime<'a> {
                 Ok(Value::Null)
             }
             ProcessCommandBuiltin::TimeoutMs => {
-                let timeout_ms = self.eval_timeout_ms(args.args[0], span)?;
+                let timeout_ms = self.eval_timeout_ms(Self::arg_at(args, 0, span)?, span)?;
                 let command = self.get_mutable_process_command(receiver, span, field)?;
                 command.set_timeout_ms(timeout_ms);
                 Ok(Value::Null)
@@ -1187,15 +1227,16 @@ impl<'a> Runtime<'a> {
         array: &Vec<Value<'a>, &'a Arena>,
         field: &'a str,
         args: &'a ArgList<'a>,
+        span: Span,
     ) -> Result<Value<'a>, RuntimeError> {
         let array_builtin = ArrayBuiltin::from_name(field)
             .expect("Semantic analysis guarantees valid array method");
         match array_builtin {
             ArrayBuiltin::Len => Ok(Value::Number(ArrayBuiltin::len(array))),
             ArrayBuiltin::Join => {
-                let sep = self.eval_expr(args.args[0])?;
+                let sep = self.eval_expr(Self::arg_at(args, 0, span)?)?;
                 let Value::Str(sep) = sep else {
-                    unreachable!("Semantic analysis guarantees string arg")
+                    return Err(RuntimeError::new(RuntimeErrorKind::TypeMismatch, span));
                 };
                 let result = ArrayBuiltin::join(array, &sep, self.frame);
                 Ok(Value::Str(ArenaCow::Owned(result)))
@@ -1254,20 +1295,21 @@ impl<'a> Runtime<'a> {
         s: &ArenaCow<'a>,
         field: &'a str,
         args: &'a ArgList<'a>,
+        span: Span,
     ) -> Result<Value<'a>, RuntimeError> {
         let string_builtin = StringBuiltin::from_name(field)
             .expect("Semantic analysis guarantees valid string method");
         match string_builtin {
             StringBuiltin::Len => Ok(Value::Number(StringBuiltin::len(s))),
             StringBuiltin::Slice => {
-                let start = self.eval_expr(args.args[0])?;
-                let end = self.eval_expr(args.args[1])?;
+                let start = self.eval_expr(Self::arg_at(args, 0, span)?)?;
+                let end = self.eval_expr(Self::arg_at(args, 1, span)?)?;
                 match (start, end) {
                     (Value::Number(start), Value::Number(end)) => {
                         let s = StringBuiltin::slice(s, start, end, self.frame);
                         Ok(Value::Str(ArenaCow::Owned(s)))
                     }
-                    _ => unreachable!("Semantic analysis guarantees number args"),
+                    _ => Err(RuntimeError::new(RuntimeErrorKind::TypeMismatch, span)),
                 }
             }
             StringBuiltin::ToUppercase => {
@@ -1283,26 +1325,26 @@ impl<'a> Runtime<'a> {
                 Ok(Value::Str(ArenaCow::Owned(s)))
             }
             StringBuiltin::Find => {
-                let needle = self.eval_expr(args.args[0])?;
+                let needle = self.eval_expr(Self::arg_at(args, 0, span)?)?;
                 match needle {
                     Value::Str(n) => Ok(Value::Number(StringBuiltin::find(s, &n))),
-                    _ => unreachable!("Semantic analysis guarantees string arg"),
+                    _ => Err(RuntimeError::new(RuntimeErrorKind::TypeMismatch, span)),
                 }
             }
             StringBuiltin::Replace => {
-                let old = self.eval_expr(args.args[0])?;
-                let new = self.eval_expr(args.args[1])?;
+                let old = self.eval_expr(Self::arg_at(args, 0, span)?)?;
+                let new = self.eval_expr(Self::arg_at(args, 1, span)?)?;
                 match (old, new) {
                     (Value::Str(o), Value::Str(n)) => {
                         let result = StringBuiltin::replace(s, &o, &n, self.frame);
                         Ok(Value::Str(ArenaCow::Owned(result)))
                     }
-                    _ => unreachable!("Semantic analysis guarantees string args"),
+                    _ => Err(RuntimeError::new(RuntimeErrorKind::TypeMismatch, span)),
                 }
             }
             StringBuiltin::ToNumber => Ok(Value::Number(StringBuiltin::to_number(s))),
             StringBuiltin::Split => {
-                let pattern = self.eval_expr(args.args[0])?;
+                let pattern = self.eval_expr(Self::arg_at(args, 0, span)?)?;
                 match pattern {
                     Value::Str(pat) => {
                         let mut collection =
@@ -1313,7 +1355,7 @@ impl<'a> Runtime<'a> {
                         vtrace!("split", collection.len(), 0);
                         Ok(Value::Array(collection))
                     }
-                    _ => unreachable!("Semantic analysis guarantees string arg"),
+                    _ => Err(RuntimeError::new(RuntimeErrorKind::TypeMismatch, span)),
                 }
             }
         }
@@ -1344,7 +1386,7 @@ impl<'a> Runtime<'a> {
                 } else {
                     self.lookup_var_mut(name)
                 }
-                .expect("Semantic analysis guarantees variable exists");
+                .ok_or_else(|| RuntimeError::new(RuntimeErrorKind::UndefinedVariable, span))?;
                 match var {
                     Value::Array(arr) => Ok(arr),
                     _ => Err(RuntimeError::new_with_extras(
@@ -1356,7 +1398,9 @@ impl<'a> Runtime<'a> {
                 }
             }
             Expr::Index { .. } => {
-                let (base_expr, base_var, index_exprs) = self.flatten_index_target(object);
+                let (base_expr, base_var, index_exprs) = self
+                    .flatten_index_target(object)
+                    .ok_or_else(|| RuntimeError::new(RuntimeErrorKind::TypeMismatch, span))?;
 
                 let mut evaluated_indices = Vec::with_capacity_in(index_exprs.len(), self.frame);
                 for (index_expr, index_span) in &index_exprs {
@@ -1369,7 +1413,7 @@ impl<'a> Runtime<'a> {
                 } else {
                     self.lookup_var_mut(base_var)
                 }
-                .expect("Semantic analysis guarantees variable exists");
+                .ok_or_else(|| RuntimeError::new(RuntimeErrorKind::UndefinedVariable, span))?;
 
                 for (idx, index_span) in &evaluated_indices {
                     match slot {
@@ -1419,7 +1463,7 @@ impl<'a> Runtime<'a> {
                 } else {
                     self.lookup_var_mut(name)
                 }
-                .expect("Semantic analysis guarantees variable exists");
+                .ok_or_else(|| RuntimeError::new(RuntimeErrorKind::UndefinedVariable, span))?;
                 match var {
                     Value::Host(host) => match host.get_mut() {
                         HostValue::ProcessCommand(command) => Ok(command),
@@ -1439,7 +1483,9 @@ impl<'a> Runtime<'a> {
                 }
             }
             Expr::Index { .. } => {
-                let (base_expr, base_var, index_exprs) = self.flatten_index_target(object);
+                let (base_expr, base_var, index_exprs) = self
+                    .flatten_index_target(object)
+                    .ok_or_else(|| RuntimeError::new(RuntimeErrorKind::TypeMismatch, span))?;
 
                 let mut evaluated_indices = Vec::with_capacity_in(index_exprs.len(), self.frame);
                 for (index_expr, index_span) in &index_exprs {
@@ -1452,7 +1498,7 @@ impl<'a> Runtime<'a> {
                 } else {
                     self.lookup_var_mut(base_var)
                 }
-                .expect("Semantic analysis guarantees variable exists");
+                .ok_or_else(|| RuntimeError::new(RuntimeErrorKind::UndefinedVariable, span))?;
 
                 for (idx, index_span) in &evaluated_indices {
                     match slot {
@@ -1545,9 +1591,14 @@ impl<'a> Runtime<'a> {
         }
     }
 
-    fn eval_string_expr(&mut self, expr: ExprRef<'a>, parts: &StringParts<'a>) -> Value<'a> {
+    fn eval_string_expr(
+        &mut self,
+        expr: ExprRef<'a>,
+        parts: &StringParts<'a>,
+        span: Span,
+    ) -> Result<Value<'a>, RuntimeError> {
         match parts {
-            StringParts::Static(content) => Value::Str(ArenaCow::borrowed(content)),
+            StringParts::Static(content) => Ok(Value::Str(ArenaCow::borrowed(content))),
             StringParts::Interpolated(segments) => {
                 let mut result = ArenaString::with_capacity_in(segments.len(), self.frame);
                 for (segment_idx, segment) in segments.iter().enumerate() {
@@ -1563,12 +1614,14 @@ impl<'a> Runtime<'a> {
                             } else {
                                 self.lookup_var_ref(var)
                             }
-                            .expect("Semantic analysis should guarantee variable exists");
+                            .ok_or_else(|| {
+                                RuntimeError::new(RuntimeErrorKind::UndefinedVariable, span)
+                            })?;
                             write!(result, "{value}").unwrap();
                         }
                     }
                 }
-                Value::Str(ArenaCow::owned(result))
+                Ok(Value::Str(ArenaCow::owned(result)))
             }
         }
     }
@@ -1597,7 +1650,12 @@ impl<'a> Runtime<'a> {
         }
     }
 
-    fn assign_bound_local(&mut self, local: LocalId, val: Value<'a>) {
+    fn assign_bound_local(
+        &mut self,
+        local: LocalId,
+        val: Value<'a>,
+        span: Span,
+    ) -> Result<(), RuntimeError> {
         let has_frame = self.has_frame_arena();
         let pool = &self.pool;
         let frame = self.frame;
@@ -1605,13 +1663,19 @@ impl<'a> Runtime<'a> {
         for scope in self.env.iter_mut().rev() {
             if let Some(slot) = scope.iter_mut().rev().find(|slot| slot.id == Some(local)) {
                 Self::overwrite_slot(&mut slot.value, val, has_frame, pool, frame);
-                return;
+                return Ok(());
             }
         }
-        unreachable!("Semantic analysis guarantees variable exists");
+        // The variable's `make` has not run yet in any live scope
+        Err(RuntimeError::new(RuntimeErrorKind::UndefinedVariable, span))
     }
 
-    fn assign_var(&mut self, name: &'a str, val: Value<'a>) {
+    fn assign_var(
+        &mut self,
+        name: &'a str,
+        val: Value<'a>,
+        span: Span,
+    ) -> Result<(), RuntimeError> {
         let has_frame = self.has_frame_arena();
         let pool = &self.pool;
         let frame = self.frame;
@@ -1619,10 +1683,11 @@ impl<'a> Runtime<'a> {
         for scope in self.env.iter_mut().rev() {
             if let Some(slot) = scope.iter_mut().rev().find(|slot| slot.name == name) {
                 Self::overwrite_slot(&mut slot.value, val, has_frame, pool, frame);
-                return;
+                return Ok(());
             }
         }
-        unreachable!("Semantic analysis guarantees variable exists");
+        // The variable's `make` has not run yet in any live scope
+        Err(RuntimeError::new(RuntimeErrorKind::UndefinedVariable, span))
     }
 
     /// Moves a function return value across a frame reset boundary.
@@ -1698,7 +1763,9 @@ impl<'a> Runtime<'a> {
         value: Value<'a>,
         span: Span,
     ) -> Result<(), RuntimeError> {
-        let (base_expr, base_var, index_exprs) = self.flatten_index_target(target);
+        let (base_expr, base_var, index_exprs) = self
+            .flatten_index_target(target)
+            .ok_or_else(|| RuntimeError::new(RuntimeErrorKind::TypeMismatch, span))?;
 
         let mut evaluated_indices = Vec::with_capacity_in(index_exprs.len(), self.frame);
         for (index_expr, index_span) in &index_exprs {
@@ -1715,7 +1782,7 @@ impl<'a> Runtime<'a> {
         } else {
             self.lookup_var_mut(base_var)
         }
-        .expect("Semantic analysis guarantees variable exists");
+        .ok_or_else(|| RuntimeError::new(RuntimeErrorKind::UndefinedVariable, span))?;
 
         for (i, (idx, index_span)) in evaluated_indices.iter().enumerate() {
             let is_last = i + 1 == evaluated_indices.len();
@@ -1747,7 +1814,7 @@ impl<'a> Runtime<'a> {
     fn flatten_index_target(
         &self,
         mut target: ExprRef<'a>,
-    ) -> (ExprRef<'a>, &'a str, Vec<(ExprRef<'a>, Span), &'a Arena>) {
+    ) -> Option<(ExprRef<'a>, &'a str, Vec<(ExprRef<'a>, Span), &'a Arena>)> {
         let mut indices = Vec::new_in(self.frame);
         loop {
             match target {
@@ -1757,9 +1824,10 @@ impl<'a> Runtime<'a> {
                 }
                 Expr::Var(name, ..) => {
                     indices.reverse();
-                    return (target, *name, indices);
+                    return Some((target, *name, indices));
                 }
-                _ => unreachable!("Semantic analysis guarantees valid index assignment target",),
+                // Only a variable can be the root of an assignable index chain
+                _ => return None,
             }
         }
     }
